@@ -95,9 +95,9 @@ def shard(sh):
         ctxflags = 0
         if isinstance(mask, tuple):
             # an explicit configuration: (reference schema, declared schema, registration lines, context flags)
-            sch, decl, reg, ctxflags = mask
+            sch, decl, reg, ctxflags = mask[:4]
             drv.define_schema(decl.sid, decl.spec())
-            alpha = S.alphabet_for(sch)
+            alpha = mask[4] if len(mask) > 4 else S.alphabet_for(sch)
             batch = []
         else:
             sch = variant(mask)
@@ -298,6 +298,13 @@ def main():
             shards.append(([conf], Nk, ch, dl))
     engine.phase(ck, 'E1 N=%d: float / bool / string / pointer parse callbacks, a single section addressed by path, registration under CFGF_NOCASE' % Nk,
                  shard, shards, configurations=len(confs))
+    # function calls need many tokens each: a reduced alphabet, deeper (several calls on one level, calls inside a section)
+    fsch = variant(0b1000000)
+    falpha = ['fn', '(', ')', ',', '7', 't1', 's', '{', '}', 'x', '=']
+    Nf = 11 if quick else 13
+    inner, frontier = trace.viable_prefixes(fsch, 0, falpha, 3)
+    shards = [([(fsch, fsch, [], 0, falpha)], 0, inner, dl)] + [([(fsch, fsch, [], 0, falpha)], Nf, ch, dl) for ch in engine.chunks(frontier, 2)]
+    engine.phase(ck, 'E1 N=%d over the function-call alphabet (several calls per level, calls inside sections)' % Nf, shard, shards, alphabet=len(falpha))
     for N in Ns[1:]:
         main_phase(N)       # the deeper bounds last: everything above has run when the deadline cuts them short
     ck.assumptions = ['validation calls: the log is compared after collapsing consecutive identical calls (same option, same count, same last value)',
